@@ -122,12 +122,15 @@ func (pkh *eonPubKeyHandler) queryAndHandleNewEonPubKeys(ctx context.Context) er
 			Eon:               eon,
 		}
 		if pkh.broadcastEonPubKey {
-			err := pkh.broadcastEonPublicKey(ctx, eonPubKey)
-			return errors.Wrap(err, "failed to broadcast eon public key")
+			if err := pkh.broadcastEonPublicKey(ctx, eonPubKey); err != nil {
+				return errors.Wrap(err, "failed to broadcast eon public key")
+			}
+			continue
 		}
 		if pkh.eonPubkeyHandler != nil {
-			err := pkh.eonPubkeyHandler(ctx, eonPubKey)
-			return errors.Wrap(err, "failed to handle eon public key")
+			if err := pkh.eonPubkeyHandler(ctx, eonPubKey); err != nil {
+				return errors.Wrap(err, "failed to handle eon public key")
+			}
 		}
 	}
 	return nil
